@@ -44,6 +44,7 @@ def make_items(tier, seed):
                 # values (0 is falsy!), unseeded, and the case's own seed
                 sd = rng.choice(["own", "own", 0, 0, 1, "none", 42, 2 ** 32 - 1])
                 items.append({"i": i, "mode": mode, "workers": workers, **({} if sd == "own" else {"seed": sd}),
+                              **({"yield": True} if mode == "thread" and rng.random() < (0.35 if tier == "quick" else 0.5) else {}),
                               "delay": {"salt": f"{seed}-{i}-{mode}", "max_ms": 3.0 if mode == "thread" else 2.0, "p": 0.5}})
                 break
     return items
@@ -68,7 +69,7 @@ def check(prop, tier, seed):
             workers_seen[f"{obs['mode']}/{obs['workers']}"] += 1
             if st.get("pool_ops", 0) > 0:
                 rep.distinct.add(common.item_label(item))
-        for k in ("pool_ops", "pool_nonidentity", "pool_execs", "pool_completed_out_of_order", "greedy_ops", "init_points", "init_agents_matched", "calls", "agents", "recorded_args"):
+        for k in ("yields_injected", "pool_ops", "pool_nonidentity", "pool_execs", "pool_completed_out_of_order", "greedy_ops", "init_points", "init_agents_matched", "calls", "agents", "recorded_args"):
             counters[k] += st.get(k, 0) or 0
         for p in st.get("perms", []) + st.get("completion_orders", []):
             perms.add(tuple(p))
@@ -85,6 +86,7 @@ def check(prop, tier, seed):
                       "pooled_operations_gathered_out_of_order": counters["pool_nonidentity"],
                       "distinct_nonidentity_completion_orders_sampled": len(perms),
                       "pooled_greedy_selections_checked": counters["greedy_ops"],
+                      "line_level_yields_injected_in_pool_threads": counters["yields_injected"],
                       "initial_agents_matched_to_evaluations": counters["init_agents_matched"],
                       "initial_points_checked_for_duplicates": counters["init_points"],
                       "objective_calls_recorded": counters["recorded_args"], "agents_checked": counters["agents"],
